@@ -22,6 +22,59 @@ func init() {
 		Rule{Name: "C16-R10-one-element-per-scalar", Doc: "in the combine*Values loops every accepted scalar argument appends exactly one element to the item's values and every rejected one returns an error: no accepted argument is dropped or doubled, so the values come out in the order and number supplied", Run: c16OnePerScalar})
 }
 
+func init() {
+	registry["C16"].Rules = append(registry["C16"].Rules,
+		Rule{Name: "C16-R11-int-to-float-exact", Doc: "a 64-bit integer argument becomes a float element only when |v| ≤ 2^53 was established (every such integer is exactly representable), and ±2^53 themselves are still accepted: an integer outside that range yields an error instead of a silently rounded value", Run: c16IntToFloatExact})
+}
+
+func c16IntToFloatExact(r *Run) {
+	const rule = "C16-R11-int-to-float-exact"
+	w := r.W
+	n := 0
+	for _, name := range []string{"FloatItem.combineFloatValues", "FloatItem.combineFloatValuesSlow"} {
+		fn := w.Fn("secs2", name)
+		r.Analysed(w.FnName(fn))
+		e := newBndEngine(w, "c16-i2f-"+name, []*ssa.Function{fn}, nil)
+		e.entries[fn] = true
+		e.run()
+		if len(e.ctxs[fn]) == 0 {
+			r.Undecided(rule, name+" analysed", fn.Pos(), "no context")
+			continue
+		}
+		c := e.ctxs[fn][0]
+		eachInstr(fn, func(in ssa.Instruction) {
+			cv, ok := in.(*ssa.Convert)
+			if !ok || !isIntType(cv.X.Type()) || typeBits(cv.X.Type()) < 64 {
+				return
+			}
+			if b, ok := cv.Type().Underlying().(*types.Basic); !ok || b.Info()&types.IsFloat == 0 {
+				return
+			}
+			n++
+			v := c.lin(cv.X)
+			b, idx := cv.Block(), blockIndexOf(cv)
+			what := shortRender(cv.X) + " in " + name
+			lim := int64(1) << 53
+			lo := -lim
+			if isUnsigned(cv.X.Type()) {
+				lo = 0
+			}
+			q1, ok1 := leq(linConst(lo), v, "")
+			q2, ok2 := leq(v, linConst(lim), "")
+			r.Check(ok1 && c.proveAt(b, idx, q1), rule, fmt.Sprintf("converted to float only when ≥ %d: %s", lo, what), cv.Pos(), "lower bound established", "an integer below −2^53 would be rounded silently")
+			r.Check(ok2 && c.proveAt(b, idx, q2), rule, "converted to float only when ≤ 2^53: "+what, cv.Pos(), "upper bound established", "an integer above 2^53 would be rounded silently")
+			for _, edge := range []int64{lo, lim} {
+				qa, _ := leq(v, linConst(edge), "")
+				qb, _ := leq(linConst(edge), v, "")
+				fs := c.factsAt(b, idx)
+				fs.ineqs = append(fs.ineqs, qa, qb)
+				r.Check(!c.entailsSat(fs, Ineq{linConst(1), ""}), rule, fmt.Sprintf("the value %d is still accepted: %s", edge, what), cv.Pos(), "boundary value reachable", fmt.Sprintf("the guards refuse %d, which is exactly representable", edge))
+			}
+		})
+	}
+	r.Floor(rule, "64-bit integer → float conversions", n, 4)
+}
+
 // kEval evaluates integer SSA expressions that depend only on the element width.
 type kEval struct {
 	fn    *ssa.Function
